@@ -215,9 +215,10 @@ static void rt_core(tg::TableSpec& s, int naux, int auxstyle, bool disk, bool ha
 
 // legacy layouts produced by the independent writer
 static void run_legacy(uint64_t idx) {
-  static const vf::Radix R{5, 2, 2, 2, 4, 2};
+  static const vf::Radix R{5, 2, 2, 2, 4, 2, 4};
   auto v = R.decode(idx);
-  int d = v[0] + 1; bool single_order = v[1], extents = v[2], periods = v[3]; static const int BP[] = {-32, -64, 16, 32}; int bitpix = BP[v[4]]; bool disk = v[5];
+  int d = v[0] + 1; bool single_order = v[1], extents = v[2], periods = v[3]; static const int BP[] = {-32, -64, 16, 32}; int bitpix = BP[v[4]]; bool disk = v[5]; int ext_order = v[6];
+  if (ext_order && (bitpix != -32 || single_order)) return;   // the extension-order variants only with the documented image type and ORDERn keys
   tg::TableSpec s;
   for (int i = 0; i < d; i++) { uint32_t o = single_order ? 2 : (uint32_t)((i * 2 + 1) % 5); s.dims.push_back({o, tg::make_knots(i % 2 ? tg::K_IRREGULAR : tg::K_UNIFORM, o, 2 * o + 2 + i, 0.5 * i)}); }
   uint64_t nc = s.ncoeffs(); s.coeffs.resize(nc);
@@ -225,9 +226,10 @@ static void run_legacy(uint64_t idx) {
   for (int i = 0; i < d; i++) { s.extents.push_back(s.dims[i].knots.front() - 2.0); s.extents.push_back(s.dims[i].knots.back() + 1.0); s.periods.push_back(10.0 * (i + 1)); }
   Table t; tg::build(t, s);
   t.write_key("LEGACY", std::string("yes"));
-  std::string tabkey = vf::fmt("legacy:d=%d:%s:extents=%d:periods=%d:bitpix=%d:%s", d, single_order ? "ORDER" : "ORDERn", extents, periods, bitpix, disk ? "disk" : "mem");
+  static const char* EO[] = {"", ":EXTENTS-first", ":knot-extensions-reversed", ":unrelated-extension-before-the-knots"};
+  std::string tabkey = vf::fmt("legacy:d=%d:%s:extents=%d:periods=%d:bitpix=%d:%s%s", d, single_order ? "ORDER" : "ORDERn", extents, periods, bitpix, disk ? "disk" : "mem", EO[ext_order]);
   H->hint(tabkey);
-  fr::WriteOpts o; o.single_order_key = single_order; o.write_extents = extents; o.write_periods = periods; o.coeff_bitpix = bitpix;
+  fr::WriteOpts o; o.single_order_key = single_order; o.write_extents = extents; o.write_periods = periods; o.coeff_bitpix = bitpix; o.ext_order = ext_order;
   fr::Bytes wb = fr::encode(from_table(t), o);
   Table t3;
   try {
@@ -271,11 +273,11 @@ int main(int argc, char** argv) {
   vf::Harness h("C06", argc, argv);
   H = &h;
   h.meta("level", "exploration");
-  h.meta("rule", "complete walk: d=1..9 (pairwise different axis lengths naxes_i=order_i+1+i) x 3 order patterns x {seeded, extreme: +-0, denormal, +-FLT_MAX, +-inf, NaN with payload} x {default, custom} extents x {periods, none} x {0,1,5,40} aux keys (int, double, strings, HIERARCH keys; 40 forces a second header block) x {disk, memory}; per case: library round trip (C++ and C reader) compared field by field + operator== + identical evaluation, the written bytes parsed by ref/fits_ref.hpp (BITPIX -32, reversed NAXISn, ORDERn, PERIODn, KNOTSn/EXTENTS double extensions by EXTNAME, aux order), the same table produced by the independent writer and read by the library; blocks space: 1-d tables with 719/720/721/1439/1440/1441 coefficients or 359/360/361/720/1080 knots, 2-d and 3-d tables with exactly 720 / 721 coefficients (a FITS block holds 720 floats or 360 doubles) x order {0,3} x {no keys, nine cards at the limits: maximal standard / HIERARCH values, doubled quotes, leading blanks, empty value, 8- and 66-character keys, key with blanks} x {disk, memory}; legacy space: 1..5 dims x {ORDER, ORDERn} x {EXTENTS, none} x {PERIODn, none} x BITPIX {-32,-64,16,32} x {disk, memory}; shipped space: the ten reference files (independent decode == library decode == recorded digest); distinct = case descriptor");
+  h.meta("rule", "complete walk: d=1..9 (pairwise different axis lengths naxes_i=order_i+1+i) x 3 order patterns x {seeded, extreme: +-0, denormal, +-FLT_MAX, +-inf, NaN with payload} x {default, custom} extents x {periods, none} x {0,1,5,40} aux keys (int, double, strings, HIERARCH keys; 40 forces a second header block) x {disk, memory}; per case: library round trip (C++ and C reader) compared field by field + operator== + identical evaluation, the written bytes parsed by ref/fits_ref.hpp (BITPIX -32, reversed NAXISn, ORDERn, PERIODn, KNOTSn/EXTENTS double extensions by EXTNAME, aux order), the same table produced by the independent writer and read by the library; blocks space: 1-d tables with 719/720/721/1439/1440/1441 coefficients or 359/360/361/720/1080 knots, 2-d and 3-d tables with exactly 720 / 721 coefficients (a FITS block holds 720 floats or 360 doubles) x order {0,3} x {no keys, nine cards at the limits: maximal standard / HIERARCH values, doubled quotes, leading blanks, empty value, 8- and 66-character keys, key with blanks} x {disk, memory}; legacy space: 1..5 dims x {ORDER, ORDERn} x {EXTENTS, none} x {PERIODn, none} x BITPIX {-32,-64,16,32} x {disk, memory} x extension order {as written by the library, EXTENTS first, knot extensions reversed, an unrelated extension before the knots} (extensions are found by EXTNAME); shipped space: the ten reference files (independent decode == library decode == recorded digest); distinct = case descriptor");
   h.meta("assumption", "ref/fits_ref.hpp is the independent reader/writer; shipped digests recorded in ref/shipped_digests.txt at the pinned commit");
   h.timeout_s = 120;
   h.add_space("shipped", 10, run_shipped);
-  h.add_space("legacy", 5 * 2 * 2 * 2 * 4 * 2, run_legacy);
+  h.add_space("legacy", 5 * 2 * 2 * 2 * 4 * 2 * 4, run_legacy);
   h.add_space("rt", 9 * 3 * 2 * 2 * 2 * 4 * 2, run_rt);
   h.add_space("blocks", 14 * 2 * 2 * 2, run_blocks);
   return h.main();
